@@ -791,6 +791,86 @@ pub fn apply_adv<A: Adapter>(
                 _ => false,
             }
         }
+        // ---- claimed value of another polynomial / of another point (false for this statement) ----
+        "value_other" | "value_at" => {
+            let newv = if adv.kind == "value_other" {
+                let spec = match beh.polys.iter().find(|p| p.l == adv.l) {
+                    Some(s) => s,
+                    None => return false,
+                };
+                labeled_poly::<A>(spec, beh, 78).evaluate(&A::make_point(adv.pt, beh))
+            } else {
+                match s.polys.get(&adv.l) {
+                    Some(p) => p.evaluate(&A::make_point(adv.pt2, beh)),
+                    None => return false,
+                }
+            };
+            match st {
+                Stmt::Open { labels, values, .. } => match labels.iter().position(|l| *l == adv.l) {
+                    Some(i) => {
+                        values[i] = newv;
+                        true
+                    }
+                    None => false,
+                },
+                Stmt::Batch { evals, .. } => {
+                    let key = (plabel(adv.l), A::make_point(adv.pt, beh));
+                    match evals.get_mut(&key) {
+                        Some(v) => {
+                            *v = newv;
+                            true
+                        }
+                        None => false,
+                    }
+                }
+                _ => false,
+            }
+        }
+        // ---- crafted proofs that need the session's context (linear-code forgeries) ----
+        "proof_mut" if adv.comp.starts_with("forge_") => {
+            // only meaningful for a group with exactly one polynomial (the transcript is re-walked)
+            let (label, point) = match (&*st, op.kind.as_str()) {
+                (Stmt::Open { labels, point, .. }, _) if labels.len() == 1 => (labels[0], point.clone()),
+                (Stmt::Batch { qs, .. }, _) => {
+                    let mut groups: BTreeMap<&String, Vec<(&String, &A::Pt)>> = BTreeMap::new();
+                    for (l, (pl, pt)) in qs.iter() {
+                        groups.entry(pl).or_default().push((l, pt));
+                    }
+                    let g = match groups.values().next() {
+                        Some(g) if g.len() == 1 && adv.l == 0 => g,
+                        _ => return false,
+                    };
+                    let lab: i64 = g[0].0[1..].parse().unwrap_or(0);
+                    (lab, g[0].1.clone())
+                }
+                _ => return false,
+            };
+            let (comm, state) = match (s.comms.get(&label), s.states.get(&label)) {
+                (Some(c), Some(t)) => (c.commitment().clone(), t),
+                _ => return false,
+            };
+            let forged = A::forge(&adv.comp, &s.vk, &comm, state, &point, sp_v, &mut rng);
+            let (fp, fv) = match forged {
+                Some(x) => x,
+                None => return false,
+            };
+            match st {
+                Stmt::Open { proof, values, .. } => {
+                    *proof = fp;
+                    values[0] = fv;
+                    true
+                }
+                Stmt::Batch { proof, evals, .. } => {
+                    if proof.is_empty() {
+                        return false;
+                    }
+                    proof[0] = fp;
+                    evals.insert((plabel(label), point), fv);
+                    true
+                }
+                _ => false,
+            }
+        }
         // ---- single-proof mutations (component replacement, scheme-specific shapes) ----
         "proof_mut" => {
             let idx = adv.l.max(0) as usize;
